@@ -27,3 +27,11 @@ pub trait Hash { fn hash<H: Hasher>(&self, state: &mut H); }
 
 pub assume_specification[ <u128 as From<bool>>::from ](b: bool) -> (r: u128)
     ensures r == (if b { 1u128 } else { 0u128 });
+
+// exec `==` on arrays has no Verus specification; `a == *b` on byte arrays is renamed to this stand-in (R6)
+pub trait ArrEq { spec fn aview(&self) -> Seq<u8>; fn arr_eq(&self, other: &Self) -> (r: bool) ensures r == (self.aview() == other.aview()); }
+impl<const N: usize> ArrEq for [u8; N] {
+    open spec fn aview(&self) -> Seq<u8> { self@ }
+    #[verifier::external_body]
+    fn arr_eq(&self, other: &Self) -> (r: bool) { self == other }
+}
